@@ -560,3 +560,97 @@ def run_async(am: AM, events, cfg_opts=None, seed_ctx=None, per_event=True, prob
             pass
         detach_log_handler(h)
     return snaps
+
+
+# --------------------------------------------------------------------------
+# pure API run
+# --------------------------------------------------------------------------
+
+def _fingerprint_machine(machine):
+    out = []
+
+    def walk(n):
+        out.append((n.id, n.type, n.initial, sorted(n.tags), repr(n.meta), n.target_str, n.history,
+                    [(k, [(t.event, t.target_str, t.guard, [a.type for a in t.actions], t.reenter, t.forbidden) for t in ts])
+                     for k, ts in n.on.items()],
+                    None if n.on_done is None else (n.on_done.event, n.on_done.target_str),
+                    [(k, [(t.event, t.target_str) for t in ts]) for k, ts in n.after.items()],
+                    [a.type for a in n.entry], [a.type for a in n.exit]))
+        for c in n.states.values():
+            walk(c)
+    walk(machine)
+    return repr(out)
+
+
+def pure_action_token(a):
+    t = a.type
+    if t == "xstate.assign":
+        return [TS("pbuiltin"), TN(4 if isinstance(a.params, BadParams) else 1)]
+    if t == "xstate.raise":
+        return [TS("pbuiltin"), TN(2)]
+    if t == "xstate.emit":
+        return [TS("pbuiltin"), TN(3)]
+    num = "".join(ch for ch in t if ch.isdigit())
+    return [TS("pact"), TN(int(num) if num else 0)]
+
+
+def run_pure(am: AM, events, seed_ctx=None):
+    """initial_transition, then transition() threaded through the returned snapshots.
+    Returns (token lists, isolation problems)."""
+    import copy
+    import threading
+    from xstate_statemachine import create_machine
+    from xstate_statemachine.helpers import initial_transition, transition
+    rec = Rec(am)
+    problems = []
+    try:
+        machine = create_machine(am.to_config(context=seed_ctx), logic=build_logic(am, rec))
+    except Exception as exc:
+        return [[TS("create-error"), TN(err_code(exc))]], problems
+    ids = am.index_by_id()
+
+    def flat(snap, actions, exc):
+        out = [TS("cfg")] + [TN(x) for x in sorted(ids[i] for i in snap.configuration)] if snap is not None else [TS("cfg")]
+        out.append(TS("ctx"))
+        for v in range(4):
+            out.append(TZ((snap.context if snap is not None else {}).get("v%d" % v, 0)))
+        st = {"active": 1, "done": 2, "error": 3}.get(snap.status, 9) if snap is not None else 9
+        out += [TS("status"), TN(st), TS("output")]
+        out += [TS("none")] if snap is None or snap.output is None else [TZ(snap.output)]
+        out.append(TS("actions"))
+        for a in actions:
+            out += pure_action_token(a)
+        if exc is not None:
+            out += [TS("err"), TN(err_code(exc))]
+        return out
+    snaps = []
+    fp0 = _fingerprint_machine(machine)
+    threads0 = threading.active_count()
+    try:
+        snap, actions = initial_transition(machine)
+    except Exception as exc:
+        return [[TS("err"), TN(err_code(exc))]], problems
+    snaps.append(flat(snap, actions, None))
+    for ev in events:
+        before = (set(snap.configuration), copy.deepcopy(snap.context), snap.status, snap.output)
+        nlog = len(rec.log)
+        try:
+            nxt, actions = transition(machine, snap, make_event(ev))
+            exc = None
+        except Exception as e:
+            nxt, actions, exc = None, [], e
+        after = (set(snap.configuration), copy.deepcopy(snap.context), snap.status, snap.output)
+        if before != after:
+            problems.append("transition() changed the snapshot passed in: %r -> %r" % (before, after))
+        if any(o[0] == "act" for o in rec.log[nlog:]):
+            problems.append("transition() ran a user action: %r" % (rec.log[nlog:],))
+        if exc is not None:
+            snaps.append([TS("err"), TN(err_code(exc))])
+            break
+        snaps.append(flat(nxt, actions, None))
+        snap = nxt
+    if _fingerprint_machine(machine) != fp0:
+        problems.append("the machine definition changed during pure calls")
+    if threading.active_count() != threads0:
+        problems.append("pure calls started a thread")
+    return snaps, problems
